@@ -381,23 +381,56 @@ func (x *fnCtx) lockCheckAtReturn(st *State, fr *Frame, env *specEnv) {
 	if !x.lockLayer() {
 		return
 	}
-	keep := map[*Term]bool{}
+	keep := map[*Term]*Term{} // lock -> condition under which it stays held
 	for _, cl := range x.con.Clauses {
 		if cl.Kind == "holds" || cl.Kind == "acquires" {
-			l := x.evalSpec(env, cl.Expr)
-			keep[l.L[0]] = true
-			x.addVC(st, x.short, "lockpost", cl.Ord, cl.Kind, Eq(Select(lockArr(st.heap), l.L[0]), IntLit(2)), cl.Kind+" "+cl.Text+": lock held (write mode) at return", cl.Line)
+			cond := True
+			if cl.Cond != nil {
+				c, ok := x.tryEval(env, cl.Cond)
+				if !ok {
+					x.addVC(st, x.short, "lockpost", cl.Ord, cl.Kind, False, cl.Kind+" "+cl.Text+": condition cannot be evaluated (contract-target-missing)", cl.Line)
+					continue
+				}
+				cond = c
+			}
+			if cond == False {
+				continue
+			}
+			var l *Val
+			func() {
+				defer func() {
+					if r := recover(); r != nil {
+						if _, ok := r.(engineError); ok && cl.Cond != nil {
+							l = nil
+							return
+						}
+						panic(r)
+					}
+				}()
+				l = x.evalSpec(env, cl.Expr)
+			}()
+			if l == nil {
+				// the lock expression is meaningful only under the condition (e.g. a nil result)
+				x.addVC(st, x.short, "lockpost", cl.Ord, cl.Kind, Not(cond), cl.Kind+" "+cl.Text+": lock expression cannot be evaluated on this path", cl.Line)
+				continue
+			}
+			if old, ok := keep[l.L[0]]; ok {
+				keep[l.L[0]] = Or(old, cond)
+			} else {
+				keep[l.L[0]] = cond
+			}
+			x.addVC(st, x.short, "lockpost", cl.Ord, cl.Kind, Implies(cond, Eq(Select(lockArr(st.heap), l.L[0]), IntLit(2))), cl.Kind+" "+cl.Text+": lock held (write mode) at return", cl.Line)
 		}
 	}
 	var conds []*Term
 	for _, id := range st.locks {
-		if keep[id] {
+		if c, ok := keep[id]; ok && c == True {
 			continue
 		}
 		// the lock must be free unless it aliases a kept one
 		c := Eq(Select(lockArr(st.heap), id), IntLit(0))
-		for k := range keep {
-			c = Or(c, Eq(id, k))
+		for k, kc := range keep {
+			c = Or(c, And(kc, Eq(id, k)))
 		}
 		conds = append(conds, c)
 	}
@@ -419,6 +452,10 @@ func (x *fnCtx) applyLockClauses(st *State, fr *Frame, in ssa.Instruction, con *
 			l := x.evalSpec(env, cl.Expr)
 			x.addVC(st, short, "pre", x.ord(fr, in), fmt.Sprintf("%s.holds%d", con.Func, cl.Ord), Eq(Select(lockArr(st.heap), l.L[0]), IntLit(2)), "callee "+con.Func+" requires lock held: "+cl.Text, x.eng.posStr(in.Pos()))
 		case "acquires":
+			if cl.Cond != nil {
+				x.eng.logAbs("%s: conditional acquires of %s is applied after the call (result-dependent)", short, con.Func)
+				continue
+			}
 			l := x.evalSpec(env, cl.Expr)
 			x.lockOp(st, fr, in, l, "Lock")
 		case "releases":
